@@ -317,6 +317,26 @@ func isErrorConstructor(call *ssa.Call) bool {
 	switch f.String() {
 	case "fmt.Errorf", "errors.New", "errors.Join":
 		return true
+	case modPath + "/internal/utils.WrapError":
+		// returns nil only for a nil cause
+		if len(call.Call.Args) == 2 {
+			return !mayBeNilShallow(call.Call.Args[1])
+		}
+	}
+	return false
+}
+
+// mayBeNilShallow: the value is the nil constant or a phi that has a nil-constant edge.
+func mayBeNilShallow(v ssa.Value) bool {
+	switch x := v.(type) {
+	case *ssa.Const:
+		return x.Value == nil
+	case *ssa.Phi:
+		for _, e := range x.Edges {
+			if c, ok := e.(*ssa.Const); ok && c.Value == nil {
+				return true
+			}
+		}
 	}
 	return false
 }
